@@ -1,11 +1,11 @@
 package props
 
 import (
-	"strings"
 	"bytes"
 	"context"
 	"errors"
 	"fmt"
+	"strings"
 	"testing"
 	"testing/synctest"
 	"time"
